@@ -559,7 +559,8 @@ def rule_no_opaque_closures(text):
     """Soundness guard of the unfolding rules (R8).  A closure that survives them is opaque to the verifier: whatever combinator
     it is passed to (`map_or`, `and_then`, `unwrap_or_else`, `then`, ..) yields a value about which nothing is known, and a CORRECT
     function would then fail its postcondition.  Such text is outside the rules (contract assumed, property undecided) - except
-    under `catch_unwind(AssertUnwindSafe(..))`, whose precondition is unsatisfiable by design."""
+    under `catch_unwind(AssertUnwindSafe(..))`, whose precondition is unsatisfiable by design, and as the initialiser of
+    `OnceLock::get_or_init`, whose shim contract does not depend on the value."""
     c = Code(text)
     for k in range(len(c)):
         if c.kind(k) != "p" or c.t(k) not in ("|", "||"):
@@ -567,7 +568,8 @@ def rule_no_opaque_closures(text):
         prev = c.t(k - 1)
         if prev in ("(", ",", "=", "move", "return", "{", ";", "=>") or (prev == "" and k == 0):
             eo = c.enclosing_open(k)
-            if eo >= 0 and c.t(eo) == "(" and c.t(eo - 1) in ("AssertUnwindSafe", "catch_unwind"):
+            if eo >= 0 and c.t(eo) == "(" and c.t(eo - 1) in ("AssertUnwindSafe", "catch_unwind", "get_or_init"):
+                # get_or_init: the shim states what matters whatever the closure computes - the read WRITES the cell
                 continue
             raise Unsupported("a closure remains after the unfolding rules (its effect on the value it is passed to is opaque): %s"
                               % c.text[c.pos(k):c.pos(k) + 40].replace("\n", " "))
